@@ -38,7 +38,7 @@ def H(t):
     return (t - EPOCH) / timedelta(hours=1)
 
 
-def gen_library(tape):
+def gen_library(tape, need_stage=False):
     prod = tape.weighted([("cbgen", 3), ("csv", 2)])
     pstart = tape.choice([0, 0, 0, 5, 24])
     sc = {"engine": "L", "prod": prod, "pstart": pstart, "punits": tape.choice(["m", "", "km", "m"])}
@@ -52,14 +52,26 @@ def gen_library(tape):
     sc["wsum"] = tape.chance(1, 3)
     sc["weight"] = tape.choice([2.0, 0.5, 1.0])
     sc["trigger"] = tape.chance(1, 3)
+    if need_stage and not (sc["wsum"] or sc["trigger"]):
+        sc["wsum"] = True
+    if sc["trigger"] and not sc["wsum"] and not (prod == "cbgen" and sc["pstep"] < 12):
+        # a trigger that pulls the same publication of a push-based source twice would publish the very same array
+        # again (refused as memory sharing): directly behind a producer it must step more coarsely than the producer
+        sc["wsum"] = True
     if sc["trigger"]:
         sc["tstep"] = tape.choice([2, 3, 4, 6, 12])
+        if not sc["wsum"]:
+            sc["tstep"] = tape.choice([t for t in (2, 3, 4, 6, 12, 24) if t > sc["pstep"]])
         sc["tstart"] = pstart + tape.choice([0, 0, 0, 3])
         sc["t_info"] = tape.choice(["in", "out", "both"])
     pushable = sc["trigger"] or not sc["wsum"]           # the last stage publishes by itself
     cons = []
-    for _ in range(tape.weighted([(1, 3), (2, 3), (3, 1)])):
-        kinds = [("dbg", 4), ("csvw", 2)] + ([("push", 2), ("sched", 1)] if pushable else [])
+    # (a pull-based component read through several consumer links is the recorded finding
+    # shared-pull-component-merges-requests: the merger gets one reader unless the trigger sits in between)
+    for _ in range(tape.weighted([(1, 3), (2, 3), (3, 1)]) if pushable else 1):
+        # (ScheduleLogger declares its inputs without units, i.e. dimensionless: it only accepts unit-less sources)
+        kinds = [("dbg", 4), ("csvw", 2)] + ([("push", 2)] if pushable else []) + \
+            ([("sched", 1)] if pushable and sc["punits"] == "" else [])
         k = tape.weighted(kinds)
         c = {"kind": k, "scale": tape.choice([None, None, 2.0, 0.5])}
         if k in ("dbg", "csvw"):
@@ -68,7 +80,11 @@ def gen_library(tape):
         if k == "dbg" and sc["punits"] in ("m", "km"):
             c["units"] = tape.choice([None, "m", "km"])
         if k == "sched":
-            c["pull"] = tape.chance(1, 2)
+            # (a ScheduleLogger that pulls does so at every notification AND once more for the composition start
+            # while connecting: with a source that starts later than the composition - two initial publications -
+            # its requests would go backwards in time)
+            c["pull"] = tape.chance(1, 2) and (sc["tstart"] if sc["trigger"] else pstart) == pstart and not any(
+                x.get("start", pstart) < pstart for x in cons)
         cons.append(c)
     sc["consumers"] = cons
     span = tape.choice([6, 12, 24, 48, 72])
@@ -77,13 +93,30 @@ def gen_library(tape):
         last = pstart + sum(sc["gaps"])
         timed = [c for c in cons if c["kind"] in ("dbg", "csvw")]
         if timed or sc["trigger"] or sc["wsum"]:
-            # somebody asks the reader for data up to the end: the file has to cover it
-            sc["end"] = min(sc["end"], last)
-            if sc["end"] <= pstart:
-                sc["end"] = last
+            # somebody asks the reader for data until its own last step (the first one at or beyond the end): the
+            # file has to cover that
+            finals = [sc["end"]]
+            for c in timed:
+                t = c["start"]
+                while t < sc["end"]:
+                    t += c["step"]
+                finals.append(t)
+            if sc["trigger"]:
+                # ... through the trigger, which has to reach the latest of them on its own step grid
+                t = sc["tstart"]
+                while t < max(finals):
+                    t += sc["tstep"]
+                finals.append(t)
+            while last < max(finals + [sc["end"]]):
+                sc["gaps"].append(tape.choice([6, 24, 30]))
+                last += sc["gaps"][-1]
         elif tape.chance(1, 2):
             # only push-based consumers: the file may well end before the end of the run ("read all of it")
             sc["end"] = last + tape.choice([1, 24, 100])
+        else:
+            sc["end"] = min(sc["end"], last)
+    # the reader knows its time only after reading the file: the composition start is then given explicitly
+    sc["start_given"] = prod == "csv" or tape.chance(1, 3)
     sc["listing"] = tape.shuffle(list(range(8)))
     return sc
 
@@ -215,7 +248,10 @@ def run_library(sc):
     end = sc["end"]
     status = "ok"
     try:
-        composition.run(end_time=T(end))
+        if sc.get("start_given"):
+            composition.run(start_time=T(t0), end_time=T(end))
+        else:
+            composition.run(end_time=T(end))
     except Exception as e:      # noqa: BLE001
         status = type(e).__name__
         v("lib-run-raises", type(e).__name__, f"run() of a composition of library components raised {type(e).__name__}: {str(e)[:300]}")
